@@ -96,9 +96,31 @@ def gen_ticks(rng, n):
     return st, ct
 
 
-def solve_oracle(spec, ops, step_ticks, cb_ticks, obs, twin, min0):
+def gen_ctl(rng, n):
+    """what callback invocation j assigns to the optimiser's own attributes: None or [itnum|None, maxiter|None]
+    (most sessions: nothing at all)"""
+    if rng.random() < 0.7:
+        return None
+    out = []
+    for _ in range(n + 1):
+        if rng.random() < 0.65:
+            out.append(None)
+            continue
+        kind = int(rng.integers(3))
+        a = int(rng.integers(-3, 21)) if kind in (0, 2) else None
+        b = int([-1, 0, 0, 1, 2, 5][int(rng.integers(6))]) if kind in (1, 2) else None
+        out.append([a, b])
+    return out
+
+
+def solve_oracle(spec, ops, step_ticks, cb_ticks, obs, twin, min0, ctl=None):
     """direct statement of C15 on the observations of the real run.  Returns a dict (what failed) or None.
-    Nothing is asserted after the first NaN stop (the property does not speak about the state afterwards)."""
+    Nothing is asserted after the first NaN stop (the property does not speak about the state afterwards).
+
+    Callbacks that assign the optimiser's attributes (`ctl`): the iteration count and the numbering of a call are
+    fixed when it starts; afterwards the counter continues from the call's last iteration number, or from the
+    value the *last* callback of the call assigned to `itnum` (the only assignment the loop does not overwrite);
+    assignments to `maxiter` must not influence the counter."""
     kw = spec.get("kwargs", {})
     itnum = int(kw.get("iter0", 0))
     nanstop = bool(kw.get("nanstop", False))
@@ -168,8 +190,18 @@ def solve_oracle(spec, ops, step_ticks, cb_ticks, obs, twin, min0):
                 return {**where, "fails": "callback ran although none was given"}
             if trip is not None:
                 return None  # nothing is claimed after the exception
-            if ob["itnum"] != itnum + m:
-                return {**where, "fails": f"counter after solve is {ob['itnum']}, expected {itnum + m} (start {itnum}, maxiter {o['maxiter']})"}
+            want_itnum = itnum + m
+            assigned = None
+            if o["cb"] and m > 0 and ctl is not None and j + m - 1 < len(ctl) and ctl[j + m - 1] is not None:
+                assigned = ctl[j + m - 1][0]
+            if assigned is not None:
+                want_itnum = assigned + 1
+            if ob["itnum"] != want_itnum:
+                touched = o["cb"] and ctl is not None and any(c is not None and c[1] is not None for c in ctl[j : j + m])
+                return {**where, "fails": f"counter after solve is {ob['itnum']}, expected {want_itnum} (start {itnum}, maxiter {o['maxiter']}"
+                        + (f", last callback assigned itnum={assigned}" if assigned is not None else "")
+                        + (", callbacks assigned maxiter" if touched else "") + ")",
+                        "callback_assigned_maxiter": bool(touched)}
             want_ret = twin["min"][k + m - 1] if k + m > 0 else min0
             if not D.same_flat(ob["ret"], want_ret):
                 return {**where, "fails": "solve() did not return the minimiser after the last iteration"}
@@ -180,7 +212,7 @@ def solve_oracle(spec, ops, step_ticks, cb_ticks, obs, twin, min0):
             k += m
             j += len(ob["cbs"])
             nrows += done
-            itnum += m
+            itnum = want_itnum
     return None
 
 
@@ -201,6 +233,8 @@ def gen_timer_case(rng, max_ops):
     dflt = "main" if rng.random() < 0.6 else ["a", "all", "b"][int(rng.integers(3))]
     alll = "all" if rng.random() < 0.8 else ["b", "main"][int(rng.integers(2))]
     cfg = {"init": init, "dflt": dflt, "all": alll}
+    if isinstance(init, list) and rng.random() < 0.4:
+        cfg["init_tuple"] = True
     k = int(rng.integers(1, max_ops + 1))
     t = 0
     calls = []
@@ -208,11 +242,21 @@ def gen_timer_case(rng, max_ops):
     for _ in range(k):
         t += int([0, 0, 1, 1, 2, 3, 5][int(rng.integers(7))])
         r = rng.random()
-        op = "start" if r < 0.3 else "stop" if r < 0.55 else "reset" if r < 0.65 else "elapsed"
+        op = "start" if r < 0.27 else "stop" if r < 0.5 else "reset" if r < 0.58 else "elapsed" if r < 0.86 else "ctx" if r < 0.95 else "str"
         c = {"t": t, "op": op}
         if op == "elapsed":
             c["arg"] = None if rng.random() < 0.3 else pool[int(rng.integers(len(pool)))]
             c["total"] = bool(rng.random() < 0.6)
+            if rng.random() < 0.1:
+                c["via_ctx"] = True
+        elif op == "str":
+            pass
+        elif op == "ctx":
+            c["op"] = "ctx_enter" if rng.random() < 0.5 else "ctx_exit"
+            c["arg"] = None if rng.random() < 0.35 else pool[int(rng.integers(len(pool)))]
+            c["action"] = "StartStop" if rng.random() < 0.6 else "StopStart"
+            if c["op"] == "ctx_exit" and rng.random() < 0.3:
+                c["exc"] = True
         else:
             r = rng.random()
             if r < 0.25:
@@ -262,8 +306,24 @@ def timer_oracle(cfg, calls):
             first = t
         return 0 if first is None else now - first
 
+    def running(lbl):
+        ev = events.get(lbl, [])
+        return bool(ev) and ev[-1][1] == "start"
+
     for c in calls:
         t, op, arg = c["t"], c["op"], c.get("arg")
+        if op in ("ctx_enter", "ctx_exit"):
+            # a context manager is a start at one end and a stop at the other
+            op = "start" if (c["action"] == "StartStop") == (op == "ctx_enter") else "stop"
+        if op == "str":
+            # one row per existing label, sorted; accumulated time of the completed intervals, time since the
+            # pending start or `Stopped`
+            rows = []
+            for lbl in sorted(set(existing)):
+                cur = current(lbl, t) if running(lbl) else None
+                rows.append([lbl, D.fmt_ticks(total(lbl, t) - (cur or 0)), None if cur is None else D.fmt_ticks(cur)])
+            out.append(rows)
+            continue
         if op == "elapsed":
             lbl = cfg["dflt"] if arg is None else arg
             if lbl not in existing:
